@@ -276,8 +276,9 @@ func (fx *FnExec) staticCall(fr *frame, st *State, callee *ssa.Function, args []
 	case "sync":
 		return fx.syncCall(fr, st, callee, args, rt, pos)
 	case "sync/atomic":
-		fx.note("sync/atomic operations modelled as unconstrained reads / heap havoc")
-		return fx.havocCall(fr, st, key, args, rt, "")
+		// atomic cells are not tracked: reads are unconstrained, writes have no effect on the modelled heap
+		fx.note("sync/atomic cells are not tracked: reads return unconstrained values, writes change nothing else")
+		return fx.freshResult(rt, "atomic", false)
 	}
 	// explicit or automatic inlining of repo functions
 	if fc := fx.eng.db.Funcs[key]; fc != nil && fc.Inline && len(callee.Blocks) > 0 && fr.depth < fx.eng.maxInline {
@@ -1110,8 +1111,8 @@ func (fx *FnExec) modifiesEffect(x *CExpr, argOf map[string]ssa.Value, li *loopI
 		fx.modifiesEffect(base.Args[0], argOf, li, addrEffect)
 		return
 	case "field":
-		if strings.HasPrefix(base.Name, "$") {
-			return // ghost fields live outside the program heap
+		if strings.HasPrefix(base.Name, "gh_") {
+			return // ghost fields live outside the program heap (and are not havoc'd by loops)
 		}
 		if base.Name == "*" {
 			fx.modifiesEffect(base.Args[0], argOf, li, addrEffect)
